@@ -4,7 +4,7 @@
 // it with the real regex - extracted from /repo/src/ser_quoting.rs at run time - on every string
 // up to 5 symbols over the regex's alphabet (translator validation).
 //
-//   ^[+-]?(?: 0x[0-9A-Fa-f_]+ | 0o[0-7_]+ | 0b[01_]+
+//   ^[+-]?(?: 0[xX][0-9A-Fa-f_]+ | 0[oO][0-7_]+ | 0[bB][01_]+
 //           | (?: [0-9][0-9_]*\.[0-9_]* | \.[0-9][0-9_]* ) (?:[eE][+-]?[0-9][0-9_]*)?
 //           | [0-9][0-9_]*[eE][+-]?[0-9][0-9_]*
 //           | _*[0-9][0-9_]* )$
@@ -48,13 +48,13 @@ pub fn numeric_looking(s: &str) -> bool {
         i += 1;
     }
     let r = &b[i..];
-    // explicit radices (lower-case prefix letters only, as in the regex)
-    if r.len() >= 3 && r[0] == b'0' && (r[1] == b'x' || r[1] == b'o' || r[1] == b'b') {
+    // explicit radices (either case of the prefix letter, as in the regex)
+    if r.len() >= 3 && r[0] == b'0' && matches!(r[1], b'x' | b'X' | b'o' | b'O' | b'b' | b'B') {
         let mut ok = true;
         let mut j = 2;
         while j < r.len() {
             let c = r[j];
-            let good = match r[1] {
+            let good = match r[1] | 0x20 {
                 b'x' => is_dec(c) || (c >= b'a' && c <= b'f') || (c >= b'A' && c <= b'F') || c == b'_',
                 b'o' => (c >= b'0' && c <= b'7') || c == b'_',
                 _ => c == b'0' || c == b'1' || c == b'_',
